@@ -1,6 +1,6 @@
 (* Extraction of the executable specs and wrapper models (ExtrOcamlBasic only). *)
 From Coq Require Import ZArith List Extraction ExtrOcamlBasic.
-From C06 Require Spec WrapOrdered WrapEq WrapErase IterLoop GenRefine GenEq GenNode.
+From C06 Require Spec WrapOrdered WrapEq WrapErase IterLoop GenRefine GenEq GenNode GenCmp.
 Separate Extraction
   Spec.lower_bound Spec.upper_bound Spec.insert_at Spec.erase_range Spec.ord_insert Spec.ord_insert_hint
   Spec.ord_find Spec.ord_count Spec.ord_erase_key Spec.ord_erase_range Spec.ord_merge Spec.ord_assign_at
@@ -12,4 +12,5 @@ Separate Extraction
   IterLoop.us_erase_at IterLoop.mm_erase_at IterLoop.erase_loop
   GenRefine.gen_us_erase_range GenRefine.gen_mm_erase_range GenRefine.gen_set_insert_hint GenRefine.gen_map_insert_hint GenRefine.gen_map_insert
   GenEq.gen_uset_eq_run GenEq.gen_umap_eq_run GenEq.gen_ummap_eq_run
-  GenNode.gen_set_insert_hint_node GenNode.gen_uset_insert_hint_node.
+  GenNode.gen_set_insert_hint_node GenNode.gen_uset_insert_hint_node
+  GenCmp.gen_cmp6_run GenCmp.gen_set_insert_node.
